@@ -1,6 +1,6 @@
 (* Point-level model over Q: x in [0,1] -> subinterval -> cell -> box point, and back (model of GetImage /
    GetInverseImage in exact arithmetic). *)
-From Coq Require Import ZArith QArith Qround Lqa Lia List Bool.
+From Coq Require Import ZArith QArith Qround Qabs Lqa Lia List Bool.
 From IOptV Require Import Evolvent.Ev Evolvent.Adj Evolvent.Bij Evolvent.Curve.
 Import ListNotations.
 
@@ -189,3 +189,45 @@ Proof.
 Qed.
 
 End Dim.
+
+(* image(inverse(y)) is within half a cell of y on every axis, for every y of the box (faces included) *)
+Lemma cell_coord_half_cell m lo hi y : (lo < hi)%Q -> (lo <= y)%Q -> (y <= hi)%Q ->
+  (Qabs (box_coord m lo hi (cell_coord m lo hi y) - y) <= (hi - lo) / inject_Z (2 ^ (Z.of_nat m + 1)))%Q.
+Proof.
+  intros H Hl Hh. unfold cell_coord, box_coord, tcoord.
+  assert (Pz : 0 < 2 ^ Z.of_nat m) by (apply Z.pow_pos_nonneg; lia).
+  assert (E : 2 ^ (Z.of_nat m + 1) = 2 * 2 ^ Z.of_nat m) by (rewrite Z.pow_add_r by lia; lia).
+  set (P := inject_Z (2 ^ Z.of_nat m)).
+  assert (PQ : (0 < P)%Q) by (subst P; rewrite <- (Zlt_Qlt 0); exact Pz).
+  set (t := ((y - lo) / (hi - lo) * P)%Q).
+  assert (T0 : (0 <= t)%Q).
+  { subst t. apply Qmult_le_0_compat; [|lra]. apply Qle_shift_div_l; lra. }
+  assert (T1 : (t <= P)%Q).
+  { subst t. setoid_replace P with (1 * P)%Q at 2 by ring. apply Qmult_le_compat_r; [|lra]. apply Qle_shift_div_r; lra. }
+  pose proof (Qfloor_le t) as F1. pose proof (Qlt_floor t) as F2. rewrite inject_Z_plus in F2. change (inject_Z 1) with 1%Q in F2.
+  set (f := Qfloor t) in *.
+  set (c := Z.max 0 (Z.min f (2 ^ Z.of_nat m - 1))).
+  assert (Fnn : 0 <= f).
+  { assert (A : (inject_Z (-1) < inject_Z f)%Q) by (change (inject_Z (-1)) with (-1 # 1)%Q; lra). rewrite <- Zlt_Qlt in A. lia. }
+  assert (C : (inject_Z c <= t)%Q /\ (t <= inject_Z c + 1)%Q).
+  { destruct (Z_le_gt_dec f (2 ^ Z.of_nat m - 1)) as [Hs|Hs].
+    - assert (c = f) by (subst c; lia). rewrite H0. split; lra.
+    - assert (c = 2 ^ Z.of_nat m - 1) by (subst c; lia).
+      assert (A : (P <= inject_Z f)%Q) by (subst P; rewrite <- Zle_Qle; lia).
+      assert (CE : (inject_Z c == P - 1)%Q).
+      { rewrite H0. unfold Z.sub. rewrite inject_Z_plus. subst P. unfold Qminus. apply Qplus_comp; reflexivity. }
+      rewrite CE. split; lra. }
+  destruct C as [C1 C2].
+  assert (NZ : ~ (P == 0)%Q) by lra.
+  assert (Y : (y == lo + (hi - lo) * t / P)%Q).
+  { subst t. field. split; first [exact NZ | lra]. }
+  rewrite E, !inject_Z_mult, inject_Z_plus, inject_Z_mult. fold P. change (inject_Z 2) with 2%Q. change (inject_Z 1) with 1%Q.
+  set (cq := inject_Z c) in *.
+  assert (D : (lo + (hi - lo) * ((2 * cq + 1) / (2 * P)) - y == (hi - lo) * (cq + (1 # 2) - t) / P)%Q).
+  { rewrite Y. field. exact NZ. }
+  rewrite D.
+  assert (R : ((hi - lo) / (2 * P) == (hi - lo) * (1 # 2) / P)%Q) by (field; exact NZ). rewrite R.
+  apply Qabs_Qle_condition. split.
+  - apply Qle_shift_div_l; [exact PQ|]. setoid_replace (- ((hi - lo) * (1 # 2) / P) * P)%Q with (- ((hi - lo) * (1 # 2)))%Q by (field; exact NZ). nra.
+  - apply Qle_shift_div_r; [exact PQ|]. setoid_replace ((hi - lo) * (1 # 2) / P * P)%Q with ((hi - lo) * (1 # 2))%Q by (field; exact NZ). nra.
+Qed.
